@@ -3,6 +3,7 @@
 package msggen
 
 import (
+	"sort"
 	"bytes"
 	"fmt"
 	"strings"
@@ -86,6 +87,22 @@ const alnum = "ABCDEFGHIJKLMNOPQRSTUVWXYZ0123456789"
 
 // MID draws a 1..12 character alphanumeric identifier, unique within used.
 func MID(t *rapid.T, used map[string]bool) string {
+	// every sixth identifier (when there is one to copy) differs from an earlier one of the scenario only in the
+	// case of its letters: identifiers are compared byte by byte, "abc123" and "ABC123" are two messages
+	if len(used) > 0 && rapid.IntRange(0, 5).Draw(t, "mid_casevariant") == 0 {
+		var keys []string
+		for k := range used {
+			keys = append(keys, k)
+		}
+		sort.Strings(keys)
+		k := keys[rapid.IntRange(0, len(keys)-1).Draw(t, "mid_of")]
+		for _, v := range []string{strings.ToLower(k), strings.ToUpper(k), strings.ToLower(k[:1]) + k[1:]} {
+			if !used[v] {
+				used[v] = true
+				return v
+			}
+		}
+	}
 	for try := 0; ; try++ {
 		var n int
 		switch rapid.IntRange(0, 3).Draw(t, "midlen_cls") {
